@@ -136,3 +136,84 @@ Proof.
   - exact ex_mg_good.
   - intros i Hi. destruct Hi as [Hi|[Hi|Hi]]; subst i; apply Qc_is_canon; vm_compute; reflexivity.
 Qed.
+
+(* ---------------------------------------------------------------------- *)
+(* multigrid energy: a two-level hierarchy (3 fine dofs, 1 coarse dof) meets
+   goodE / dsym / dpsd, and the cycle with exact solves really lowers the energy *)
+(* ---------------------------------------------------------------------- *)
+From Verif.C11 Require Import MGEnergy.
+Definition eA : dense := [[1+1; -(1); 0]; [-(1); 1+1; -(1)]; [0; -(1); 1+1]].
+Definition eP : dense := [[1]; [1+1]; [1]].
+Definition eInd : list nat := [0; 2]%nat.
+Definition eB (r : vec) : vec := map (fun v => v / (1+1)) r.
+Definition eL : level := mk_level eP eA eInd eB.
+Definition eInd0 : list nat := [0]%nat.
+Definition eB0 (r : vec) : vec := map (fun v => v / (1+1+1+1)) r.
+
+Lemma mat_eq_this : forall a b : dense, map (map this) a = map (map this) b -> a = b.
+Proof.
+  induction a; intros [|y b] H; simpl in H; try discriminate; [reflexivity|].
+  injection H as H1 H2. f_equal; [apply vec_eq_this; exact H1|apply IHa; exact H2].
+Qed.
+
+Lemma two_neq0 : 1 + 1 <> 0. Proof. qc_neq. Qed.
+Lemma four_neq0 : 1 + 1 + 1 + 1 <> 0. Proof. qc_neq. Qed.
+
+Example ex_eA_wf : wfmat eA 3 3.
+Proof. split; [split; [reflexivity|intros row [<-|[<-|[<-|[]]]]; reflexivity]|reflexivity]. Qed.
+Example ex_eP_wf : wfmat eP 3 1.
+Proof. split; [split; [reflexivity|intros row [<-|[<-|[<-|[]]]]; reflexivity]|reflexivity]. Qed.
+
+Example ex_galerkin : galerkin eP eA = [[1+1+1+1]].
+Proof. apply mat_eq_this. vm_compute. reflexivity. Qed.
+
+Example ex_eA_sym : dsym 3 eA.
+Proof.
+  intros i j Hi Hj. destruct i as [|[|[|i]]]; try lia; destruct j as [|[|[|j]]]; try lia; reflexivity.
+Qed.
+
+Lemma Qc_add_nonneg : forall a b : Qc, 0 <= a -> 0 <= b -> 0 <= a + b.
+Proof. intros. replace 0 with (0 + 0) by ring. apply Qcplus_le_compat; assumption. Qed.
+
+Example ex_eA_psd : dpsd 3 eA.
+Proof.
+  intros v. unfold dotn, mv, dentry, drow. simpl.
+  match goal with |- 0 <= ?e =>
+    replace e with (v 0%nat * v 0%nat + (v 0%nat - v 1%nat) * (v 0%nat - v 1%nat)
+                    + (v 1%nat - v 2%nat) * (v 1%nat - v 2%nat) + v 2%nat * v 2%nat) by ring end.
+  repeat apply Qc_add_nonneg; apply Qc_sq_nonneg.
+Qed.
+
+Example ex_goodE : goodE eInd0 eB0 3 eA [eL].
+Proof.
+  simpl. split; [exact ex_eA_wf|]. split; [reflexivity|]. split.
+  { split; [repeat constructor; simpl; intuition discriminate|].
+    intros i [<-|[<-|[]]]; lia. }
+  split.
+  { intros r Hr. destruct r as [|a [|b [|? ?]]]; simpl in Hr; try discriminate.
+    split; [reflexivity|]. unfold eB, dmv, submat, gather, vget, drow. simpl.
+    f_equal; [field; exact two_neq0|f_equal; field; exact two_neq0]. }
+  exists 1%nat. split; [exact ex_eP_wf|]. simpl. rewrite ex_galerkin.
+  split. { split; [split; [reflexivity|intros row [<-|[]]; reflexivity]|reflexivity]. }
+  split. { split; [repeat constructor; simpl; intuition|]. intros i [<-|[]]. lia. }
+  intros r Hr. destruct r as [|a [|? ?]]; simpl in Hr; try discriminate.
+  split; [reflexivity|]. unfold eB0, dmv, submat, gather, vget, drow. simpl.
+  f_equal. field. exact four_neq0.
+Qed.
+
+(* the cycle strictly lowers the energy error of x = 0 for xs = (1,2,1), f = A xs = (0,2,0) *)
+Example ex_mg_energy_strict :
+  energy 3 (dentry eA) (vget [1; 1+1; 1])
+         (vget (mg_step SmExact 1 eInd0 eB0 [eL] [0; 0; 0] [0; 1+1; 0]))
+  < energy 3 (dentry eA) (vget [1; 1+1; 1]) (vget [0; 0; 0]).
+Proof. vm_compute. reflexivity. Qed.
+
+Example ex_mg_energy_thm :
+  energy 3 (dentry eA) (vget [1; 1+1; 1])
+         (vget (mg_step SmExact 1 eInd0 eB0 [eL] [1; 0; -(1)] [0; 1+1; 0]))
+  <= energy 3 (dentry eA) (vget [1; 1+1; 1]) (vget [1; 0; -(1)]).
+Proof.
+  apply (mg_exact_energy_monotone_l 1 eInd0 eB0 eL [] 3 eA);
+    try exact ex_goodE; try exact ex_eA_sym; try exact ex_eA_psd; try reflexivity;
+    apply vec_eq_this; vm_compute; reflexivity.
+Qed.
